@@ -159,6 +159,60 @@ def _roles(prog: Program) -> Roles:
     return _ROLES[1]
 
 
+# --------------------------------------------------------------------------------------------- GRPX
+def check_group_total(run: Run, prog: Program) -> None:
+    """C02.GRPX ("the total assigned to the inverters of one battery group lies ... when non-zero, outside its exclusion
+    zone"): the per-inverter split hands a group's power out greedily and may strand a rest that is smaller than the next
+    inverter's exclusion bound.  The group's total is then its allocation minus that rest -- possibly inside the
+    *battery's* exclusion zone (the allocation was at least the group's minimum power, the total need not be).  A split
+    that can strand a rest must therefore look at it: on the way from the inverter loop to the point where the rest is
+    booked as undistributed, some condition reads the rest (to re-split, to zero the group, to compare the total with
+    the battery's exclusion bound).  Decided on the split function (bound by role); a split written in another shape is
+    left undecided, not reported."""
+    if not has(prog, "mip"):
+        run.undecided("C02.GRPX: the per-inverter split is not a function of its own in this tree")
+        return
+    fn = prog.func(q(prog, "mip"))
+    run.analysed(fn.qual)
+    rets = [st.value.elts[1].id for st in body_walk(fn.node) if isinstance(st, ast.Return) and isinstance(st.value, ast.Tuple)
+            and len(st.value.elts) == 2 and isinstance(st.value.elts[1], ast.Name)]
+    if len(set(rets)) != 1:
+        run.undecided("C02.GRPX: the split's undistributed total was not identified")
+        return
+    und = rets[0]
+    found = 0
+    for suite_owner in ast.walk(fn.node):
+        for field in ("body", "orelse", "finalbody"):
+            suite = getattr(suite_owner, field, None)
+            if not isinstance(suite, list):
+                continue
+            for i, st in enumerate(suite):
+                if not (isinstance(st, ast.AugAssign) and isinstance(st.op, ast.Add) and u(st.target) == und
+                        and isinstance(st.value, ast.Name)):
+                    continue
+                rest = st.value.id
+                loops = [j for j in range(i) if isinstance(suite[j], (ast.For, ast.While)) and any(
+                    isinstance(x, ast.AugAssign) and isinstance(x.op, ast.Sub) and u(x.target) == rest for x in ast.walk(suite[j]))]
+                if not loops:
+                    continue
+                found += 1
+                between = suite[loops[-1] + 1:i + 1]
+                looked = any(isinstance(x, ast.If) and any(isinstance(n, ast.Name) and n.id == rest for n in ast.walk(x.test))
+                             for b in between for x in ast.walk(b)) or isinstance(suite_owner, ast.If) and False
+                # reported under the role, not the method's name: a listed finding must survive a rename of the helper
+                where = (fn.cls.qual if fn.cls is not None else fn.qual.split(":")[0]) + " [per-inverter split]"
+                run.check(looked, "C02.GRPX", where, "the rest a group's split strands is booked without being looked at",
+                          f"`{u(st)}` books whatever the greedy split over the group's inverters could not place, and nothing between "
+                          f"the inverter loop and this statement reads `{rest}`: when the rest is smaller than the next inverter's "
+                          "exclusion bound the group is commanded its allocation minus the rest, which can lie inside the battery's own "
+                          "exclusion zone (battery (-1000, -250, 250, 1000) behind inverters (-200, -100, 100, 200) and (-1000, -100, 100, "
+                          "1000): request 250 W -> {200, 0}, remainder 50: total 200 W inside (-250, 250); three inverters "
+                          "(-300, -200, 200, 300) behind a battery with a 450 W exclusion bound: 450 W -> {300, 0, 0})",
+                          node=st, file=fn.file, instance=f"{where}: a stranded rest is examined before it is booked")
+    if not found:
+        run.undecided("C02.GRPX: no 'rest booked after the inverter loop' statement in the split function")
+
+
 # --------------------------------------------------------------------------------------------- CAP
 def check_cap(run: Run, prog: Program) -> None:
     roles = _roles(prog)
@@ -1703,6 +1757,7 @@ def _run_rest(run: Run, prog: Program) -> None:
     check_adm_min(run, prog)
     check_adm_order(run, prog)
     check_pure(run, prog)
+    _guarded(check_group_total, run, prog)
 
 
 def _rules_for(rule_id: str):
@@ -1712,6 +1767,7 @@ def _rules_for(rule_id: str):
         "C02.BOOK": (check_book,), "C02.RES": (check_book,), "C02.SOCAGG": (check_soc_agg,),
         "C02.TAB": (check_tab,), "C02.SIGN": (check_sign,), "C02.GRP": (check_group_bounds,),
         "C02.ADM": (check_adm, check_adm_min, check_adm_order), "C02.PURE": (check_pure,),
+        "C02.GRPX": (check_group_total,),
     }
     fns = table.get(rule_id)
     if fns is None:
@@ -1743,6 +1799,8 @@ def check(run: Run, prog: Program, tier: str) -> str:
              "min_power records its deficit")
     run.rule("C02.TAB", "the bound tables hold each component's own bound of the table's kind in the requested "
              "direction (upper / negated lower); the entry points ask for their own direction")
+    run.rule("C02.GRPX", "a rest the greedy per-inverter split strands is examined before it is booked as undistributed (the "
+             "group's total = allocation - rest must stay outside the battery's exclusion zone): open finding F17")
     run.rule("C02.SIGN", "consume: request unchanged, result untouched; supply: request negated, every set-point "
              "negated back")
     run_rules(run, prog)
